@@ -166,7 +166,7 @@ class Rep:
         if after_open:
             lines += ["iolog on", op, fl.strip(), "iolog on"]     # the first wraps the callbacks (the library copies them at open), the second restarts the log
         else:
-            lines += [fl.strip(), "iolog on", op, "iolog dump"]      # the dump tells how many callbacks the open made
+            lines += ["ledger begin", fl.strip(), "iolog on", op, "iolog dump"]      # the dump tells how many callbacks the open made
         lines += L
         if peek:
             lines.append("iolog peek h0")
@@ -177,6 +177,8 @@ class Rep:
             hi = self.audio_end if wl == "rw" else -1
             lines.append("iolog verdict s0 %d %d" % (lo, hi))
         lines.append("dump s0" if dump_full else "dump s0 sum")
+        if not after_open:
+            lines.append("ledger end")      # heap / descriptor / temp-file balance of the whole scenario (failing opens included)
         return "\n".join(lines) + "\n"
 
 
@@ -309,6 +311,9 @@ def judge(rep, wl, script, lines, ff):
                 continue      # the fault made the library describe the file differently: where the caller's writes land is not comparable
             if int(d.get("changed", 0)) > 0 or int(d.get("shrunk", 0)) > 0 and wl == "r":
                 probs.append(Problem("prefix", k, "bytes the I/O layer had accepted when the fault began were changed later: %s" % l))
+        elif t[0] == "ledger" and t[1] == "end":
+            if int(d.get("blocks", 0)) != 0 or int(d.get("fds", "0").split(":")[0]) != 0 or int(d.get("tmp", "0").split(":")[0]) != 0:
+                probs.append(Problem("leak", k, "after the scenario (%s) the library still holds resources: %s" % ("open failed" if not opened else "handle closed", l.strip())))
         elif t[0] == "dump":
             # a seek that was REPORTED as done must have been done: when only seeks fail, and only after the open, a read that
             # starts at the same reported position and returns the same count as in the fault-free run delivers the same data
